@@ -1,7 +1,7 @@
 (* C12 - property theorems.  Nothing but statements, `exact <lemma>` and
    Print Assumptions.  Hypotheses: sizes >= 1 (what the library accepts). *)
 From Coq Require Import String ZArith List Bool QArith Permutation.
-From HD Require Import Base.Val C12_Model C12_Proofs C12_Proofs_Ext.
+From HD Require Import Base.Val C12_Model C12_Proofs C12_Proofs_Ext C12_Proofs_Ext2 C12_Proofs_Geom.
 Import ListNotations.
 Open Scope Z_scope.
 
@@ -378,3 +378,236 @@ Example C12_example_dataset :
   iter_tiled_full_ds (exD SC_OTHER false) = Err "ValueError"%string.
 Proof. exact ex_ds. Qed.
 Print Assumptions C12_example_dataset.
+
+(* ====================================================================== *)
+(* extension 2: unpadded round trip, R x C x S arrays, the single-tile helper *)
+(* over the whole enumeration, per-frame data against the full-tiling test,  *)
+(* the whole integer domain of the size arguments                            *)
+(* ====================================================================== *)
+Theorem C12_cut_paste_roundtrip_any : forall pad M R C th tw, wf_matrix M R C -> 1 <= R -> 1 <= C -> 1 <= th -> 1 <= tw ->
+  paste_all R C th tw (cut_all M R C th tw pad) = M.
+Proof. exact cut_paste_roundtrip_any. Qed.
+Print Assumptions C12_cut_paste_roundtrip_any.
+
+Theorem C12_cut_all_tiles_unpadded : forall M R C th tw o t, wf_matrix M R C -> 1 <= R -> 1 <= C -> 1 <= th -> 1 <= tw ->
+  In (o, t) (cut_all M R C th tw false) ->
+  In o (grid R C th tw) /\
+  exists T, t = Ok T /\ wf_matrix T (Z.min th (R - snd o + 1)) (Z.min tw (C - fst o + 1)).
+Proof. exact cut_all_tiles_unpadded. Qed.
+Print Assumptions C12_cut_all_tiles_unpadded.
+
+Theorem C12_tile_array_nd_planewise : forall s S M R C ro co th tw pad,
+  get_tile_array (proj s M) R C ro co th tw pad =
+  map_res (proj s) (get_tile_array_nd S M R C ro co th tw pad).
+Proof. exact tile_array_nd_planewise. Qed.
+Print Assumptions C12_tile_array_nd_planewise.
+
+Theorem C12_tile_array_nd_refuses : forall S M R C ro co th tw pad,
+  (ro < 1 \/ R < ro \/ co < 1 \/ C < co) <-> get_tile_array_nd S M R C ro co th tw pad = Err "ValueError"%string.
+Proof. exact tile_array_nd_refuses. Qed.
+Print Assumptions C12_tile_array_nd_refuses.
+
+Theorem C12_tile_shape_nd_padded : forall S M R C ro co th tw T, wf_nd M R C S -> 0 <= th -> 0 <= tw -> 0 <= S ->
+  get_tile_array_nd S M R C ro co th tw true = Ok T -> wf_nd T th tw S.
+Proof. exact tile_shape_nd_padded. Qed.
+Print Assumptions C12_tile_shape_nd_padded.
+
+Theorem C12_tile_cell_nd : forall s S M R C ro co th tw a b T, wf_nd M R C S ->
+  1 <= th -> 1 <= tw -> 0 <= a < th -> 0 <= b < tw ->
+  get_tile_array_nd S M R C ro co th tw true = Ok T ->
+  cell (proj s T) a b =
+  if (ro - 1 + a <? R) && (co - 1 + b <? C) then cell (proj s M) (ro - 1 + a) (co - 1 + b) else 0.
+Proof. exact tile_cell_nd. Qed.
+Print Assumptions C12_tile_cell_nd.
+
+Theorem C12_cut_paste_roundtrip_nd : forall s S pad M R C th tw, wf_nd M R C S -> 1 <= R -> 1 <= C -> 1 <= th -> 1 <= tw ->
+  paste_all R C th tw (map (fun ot => (fst ot, map_res (proj s) (snd ot))) (cut_all_nd S M R C th tw pad)) = proj s M.
+Proof. exact cut_paste_roundtrip_nd. Qed.
+Print Assumptions C12_cut_paste_roundtrip_nd.
+
+Theorem C12_nd_determined_by_planes : forall A B R C S, wf_nd A R C S -> wf_nd B R C S ->
+  (forall s, (Z.of_nat s < S) -> proj s A = proj s B) -> A = B.
+Proof. exact nd_ext. Qed.
+Print Assumptions C12_nd_determined_by_planes.
+
+Theorem C12_helper_enumeration_is_positions : forall R C th tw x y rc cc spr spc sl, 1 <= R -> 1 <= C -> 1 <= th -> 1 <= tw ->
+  helper_positions R C th tw x y rc cc spr spc sl =
+  map Ok (tile_positions R C th tw (V3 x y (slice_z sl)) rc cc spr spc).
+Proof. exact helper_positions_eq. Qed.
+Print Assumptions C12_helper_enumeration_is_positions.
+
+Theorem C12_helper_enumeration_tiled_full : forall R C th tw x y rc cc spr spc sl, 1 <= R -> 1 <= C -> 1 <= th -> 1 <= tw ->
+  are_tiled_full_code (map rc_of (oks (helper_positions R C th tw x y rc cc spr spc sl))) th tw = true.
+Proof. exact helper_positions_tiled_full. Qed.
+Print Assumptions C12_helper_enumeration_tiled_full.
+
+Theorem C12_per_frame_tiled_full_iff : forall d b, ds_sizes_ok d -> pf_tiled_full d = Ok b ->
+  (b = true <-> (length (ds_channels d) * Z.to_nat (opt_default 1%Z (ds_nfp d)) <= 1)%nat).
+Proof. exact pf_tiled_full_iff. Qed.
+Print Assumptions C12_per_frame_tiled_full_iff.
+
+Theorem C12_per_frame_tiled_full_refuses : forall d,
+  pf_tiled_full d = Err "ValueError"%string <-> (ds_sop d = SC_OTHER \/ ds_dim_org d <> Some true).
+Proof. exact pf_refuses. Qed.
+Print Assumptions C12_per_frame_tiled_full_refuses.
+
+Theorem C12_positions_domain_agrees : forall npos nori nsp R C th tw pos rc cc spr spc,
+  1 <= R -> 1 <= C -> 1 <= th -> 1 <= tw ->
+  tile_positions_dom npos nori nsp R C th tw pos rc cc spr spc =
+  tile_positions_chk npos nori nsp R C th tw pos rc cc spr spc.
+Proof. exact tile_positions_dom_agrees. Qed.
+Print Assumptions C12_positions_domain_agrees.
+
+Theorem C12_positions_domain_ok : forall npos nori nsp R C th tw pos rc cc spr spc l,
+  tile_positions_dom npos nori nsp R C th tw pos rc cc spr spc = Ok l <->
+  (npos = 3 /\ nori = 6 /\ nsp = 2 /\ (0 < spr /\ 0 < spc)%Q /\
+   ((0 < th /\ 1 <= R) \/ (th < 0 /\ R <= 1)) /\ ((0 < tw /\ 1 <= C) \/ (tw < 0 /\ C <= 1)) /\
+   l = tile_positions R C th tw pos rc cc spr spc).
+Proof. exact tile_positions_dom_ok. Qed.
+Print Assumptions C12_positions_domain_ok.
+
+Theorem C12_positions_domain_errors : forall npos nori nsp R C th tw pos rc cc spr spc,
+  (tile_positions_dom npos nori nsp R C th tw pos rc cc spr spc = Err "ZeroDivisionError"%string <->
+   npos = 3 /\ nori = 6 /\ nsp = 2 /\ (th = 0 \/ tw = 0)) /\
+  (tile_positions_dom npos nori nsp R C th tw pos rc cc spr spc = Err "ValueError"%string <->
+   npos <> 3 \/ nori <> 6 \/ nsp <> 2 \/ (th <> 0 /\ tw <> 0 /\ bad_spacing spr spc = true)) /\
+  (tile_positions_dom npos nori nsp R C th tw pos rc cc spr spc = Err "TypeError"%string <->
+   npos = 3 /\ nori = 6 /\ nsp = 2 /\ th <> 0 /\ tw <> 0 /\ bad_spacing spr spc = false /\
+   ~ (((0 < th /\ 1 <= R) \/ (th < 0 /\ R <= 1)) /\ ((0 < tw /\ 1 <= C) \/ (tw < 0 /\ C <= 1)))).
+Proof. exact tile_positions_dom_errors. Qed.
+Print Assumptions C12_positions_domain_errors.
+
+Theorem C12_tile_offsets_negative : forall th tw, th < 0 -> tw < 0 -> tile_offsets 1 1 th tw = [(1, 1)].
+Proof. exact tile_offsets_negative. Qed.
+Print Assumptions C12_tile_offsets_negative.
+
+Theorem C12_iter_consumed_agrees : forall d, ds_sizes_ok d -> bad_spacing (ds_spr d) (ds_spc d) = false ->
+  iter_tiled_full_ds_chk d = iter_tiled_full_ds d.
+Proof. exact iter_ds_chk_agrees. Qed.
+Print Assumptions C12_iter_consumed_agrees.
+
+Theorem C12_iter_consumed_spec : forall d l, iter_tiled_full_ds d = Ok l ->
+  iter_tiled_full_ds_chk d =
+  if (match ds_channels d with [] => true | _ => false end) || (opt_default 1 (ds_nfp d) <=? 0) then Ok l
+  else map_res (fun _ => l)
+         (tile_positions_dom 3 6 2 (ds_R d) (ds_C d) (ds_th d) (ds_tw d)
+            (V3 (ds_x d) (ds_y d) 0) (ds_rc d) (ds_cc d) (ds_spr d) (ds_spc d)).
+Proof. exact iter_ds_chk_spec. Qed.
+Print Assumptions C12_iter_consumed_spec.
+
+Theorem C12_iter_consumed_nil : forall d l, iter_tiled_full_ds_chk d = Ok l ->
+  (ds_channels d = [] \/ opt_default 1 (ds_nfp d) <= 0) -> l = [].
+Proof. exact iter_ds_chk_nil. Qed.
+Print Assumptions C12_iter_consumed_nil.
+
+Theorem C12_tile_array_py_agrees : forall M R C ro co th tw pad, 0 <= th -> 0 <= tw ->
+  get_tile_array_py M R C ro co th tw pad = get_tile_array M R C ro co th tw pad.
+Proof. exact tile_array_py_agrees. Qed.
+Print Assumptions C12_tile_array_py_agrees.
+
+Theorem C12_tile_array_py_refuses : forall M R C ro co th tw pad,
+  (ro < 1 \/ R < ro \/ co < 1 \/ C < co) <-> get_tile_array_py M R C ro co th tw pad = Err "ValueError"%string.
+Proof. exact tile_array_py_refuses. Qed.
+Print Assumptions C12_tile_array_py_refuses.
+
+Theorem C12_tile_shape_py_negative : forall M R C ro co th tw pad T, wf_matrix M R C -> th < 0 -> tw < 0 ->
+  get_tile_array_py M R C ro co th tw pad = Ok T ->
+  wf_matrix T (if ro - 1 + th <? 0 then Z.max (Z.max (ro - 1 + th + R) 0 - (ro - 1)) 0 else 0)
+              (if co - 1 + tw <? 0 then Z.max (Z.max (co - 1 + tw + C) 0 - (co - 1)) 0 else 0).
+Proof. exact tile_shape_py_negative. Qed.
+Print Assumptions C12_tile_shape_py_negative.
+
+Theorem C12_is_tiled_image_iff : forall a b c, is_tiled_image a b c = true <-> a = true /\ b = true /\ c = true.
+Proof. exact is_tiled_image_iff. Qed.
+Print Assumptions C12_is_tiled_image_iff.
+
+Example C12_example_ext2 :
+  wf_nd exN 2 3 2 /\
+  get_tile_array_nd 2 exN 2 3 1 3 2 2 true = Ok [[[5;6];[0;0]];[[11;12];[0;0]]] /\
+  proj 1 exN = [[2;4;6];[8;10;12]] /\
+  paste_all 5 3 2 2 (cut_all exM 5 3 2 2 false) = exM /\
+  nth 5 (map snd (cut_all exM 5 3 2 2 false)) (Err "") = Ok [[15]] /\
+  helper_positions 3 3 2 2 0 0 (V3 1 0 0) (V3 0 1 0) 1 1 None =
+    map Ok (tile_positions 3 3 2 2 (V3 0 0 0) (V3 1 0 0) (V3 0 1 0) 1 1) /\
+  length (helper_positions 3 3 2 2 0 0 (V3 1 0 0) (V3 0 1 0) 1 1 None) = 4%nat /\
+  pf_tiled_full (exD SC_LABELMAP_SEG true) = Ok true /\ pf_tiled_full (exD SC_WSI false) = Ok false /\
+  tile_positions_dom 3 6 2 0 3 2 2 (V3 0 0 0) (V3 1 0 0) (V3 0 1 0) 1 1 = Err "TypeError"%string /\
+  tile_positions_dom 3 6 2 1 5 (-2) 3 (V3 0 0 0) (V3 1 0 0) (V3 0 1 0) 1 1 =
+    Ok [((1, 1), V3 0 0 0); ((4, 1), V3 (0 + (3 * 1 * 1 + 0 * 1 * 0)) (0 + (3 * 1 * 0 + 0 * 1 * 1)) (0 + (3 * 1 * 0 + 0 * 1 * 0)))] /\
+  get_tile_array_py [[0;1;2;3;4];[5;6;7;8;9];[10;11;12;13;14];[15;16;17;18;19]] 4 5 1 1 (-1) (-1) true =
+    Ok [[0;1;2;3];[5;6;7;8];[10;11;12;13]].
+Proof. exact ex_ext2. Qed.
+Print Assumptions C12_example_ext2.
+
+(* ====================================================================== *)
+(* extension 2b: positions identify tiles; second composite                  *)
+(* ====================================================================== *)
+Theorem C12_transform_injective : forall pos rc cc spr spc c r c' r',
+  ~ (spr == 0)%Q -> ~ (spc == 0)%Q -> independent rc cc ->
+  veq (pix2ref pos rc cc spr spc c r) (pix2ref pos rc cc spr spc c' r') -> c = c' /\ r = r'.
+Proof. exact pix2ref_injective. Qed.
+Print Assumptions C12_transform_injective.
+
+Theorem C12_orthonormal_independent : forall rc cc,
+  (dot3 rc rc == 1)%Q -> (dot3 cc cc == 1)%Q -> (dot3 rc cc == 0)%Q -> independent rc cc.
+Proof. exact orthonormal_independent. Qed.
+Print Assumptions C12_orthonormal_independent.
+
+Theorem C12_positions_identify_tiles : forall R C th tw pos rc cc spr spc o p o' p',
+  ~ (spr == 0)%Q -> ~ (spc == 0)%Q -> independent rc cc ->
+  In (o, p) (tile_positions R C th tw pos rc cc spr spc) ->
+  In (o', p') (tile_positions R C th tw pos rc cc spr spc) ->
+  veq p p' -> o = o'.
+Proof. exact positions_identify_tiles. Qed.
+Print Assumptions C12_positions_identify_tiles.
+
+Theorem C12_iter_positions_identify_tiles : forall nch nfp R C th tw x y rc cc spr spc sbs ch k o p ch' o' p',
+  1 <= R -> 1 <= C -> 1 <= th -> 1 <= tw -> ~ (spr == 0)%Q -> ~ (spc == 0)%Q -> independent rc cc ->
+  In (ch, k, o, p) (iter_tiled_full nch nfp R C th tw x y rc cc spr spc sbs) ->
+  In (ch', k, o', p') (iter_tiled_full nch nfp R C th tw x y rc cc spr spc sbs) ->
+  veq p p' -> o = o'.
+Proof. exact iter_positions_identify_tiles. Qed.
+Print Assumptions C12_iter_positions_identify_tiles.
+
+Theorem C12_one_tiling_helpers : forall R C th tw x y rc cc spr spc sl M pad,
+  1 <= R -> 1 <= C -> 1 <= th -> 1 <= tw -> wf_matrix M R C ->
+  ~ (spr == 0)%Q -> ~ (spc == 0)%Q -> independent rc cc ->
+  let TP := tile_positions R C th tw (V3 x y (slice_z sl)) rc cc spr spc in
+  helper_positions R C th tw x y rc cc spr spc sl = map Ok TP /\
+  map fst TP = grid R C th tw /\
+  are_tiled_full_code (map rc_of TP) th tw = true /\
+  (forall ps, Permutation ps (map rc_of TP) -> are_tiled_full_code ps th tw = true -> ps = map rc_of TP) /\
+  (forall o p o' p', In (o, p) TP -> In (o', p') TP -> veq p p' -> o = o') /\
+  paste_all R C th tw (cut_all M R C th tw pad) = M.
+Proof. exact one_tiling_helpers. Qed.
+Print Assumptions C12_one_tiling_helpers.
+
+Example C12_example_geometry :
+  independent (V3 (3 # 5) (4 # 5) 0) (V3 (-4 # 5) (3 # 5) 0) /\
+  map fst (tile_positions 3 3 2 2 (V3 0 0 0) (V3 (3 # 5) (4 # 5) 0) (V3 (-4 # 5) (3 # 5) 0) 1 1) =
+    [(1, 1); (3, 1); (1, 3); (3, 3)] /\
+  ~ veq (pix2ref (V3 0 0 0) (V3 (3 # 5) (4 # 5) 0) (V3 (-4 # 5) (3 # 5) 0) 1 1 2 0)
+        (pix2ref (V3 0 0 0) (V3 (3 # 5) (4 # 5) 0) (V3 (-4 # 5) (3 # 5) 0) 1 1 0 2).
+Proof. exact ex_geom. Qed.
+Print Assumptions C12_example_geometry.
+
+(* extension 2c: the full-tiling test on all integer tile sizes *)
+Theorem C12_tiled_full_domain_agrees : forall ps th tw, 1 <= th -> 1 <= tw ->
+  are_tiled_full_dom ps th tw = Ok (are_tiled_full_code ps th tw).
+Proof. exact tiled_full_dom_agrees. Qed.
+Print Assumptions C12_tiled_full_domain_agrees.
+
+Theorem C12_tiled_full_domain_error : forall ps th tw,
+  are_tiled_full_dom ps th tw = Err "ValueError"%string <-> (th = 0 \/ tw = 0).
+Proof. exact tiled_full_dom_error. Qed.
+Print Assumptions C12_tiled_full_domain_error.
+
+Theorem C12_tiled_full_domain_negative : forall ps th tw, th < 0 -> tw < 0 ->
+  are_tiled_full_dom ps th tw = Ok false.
+Proof. exact tiled_full_dom_negative. Qed.
+Print Assumptions C12_tiled_full_domain_negative.
+
+Theorem C12_tiled_full_domain_one_negative : forall ps th tw, (th < 0 /\ 0 < tw) \/ (0 < th /\ tw < 0) ->
+  are_tiled_full_dom ps th tw = Ok (match ps with [] => true | _ => false end).
+Proof. exact tiled_full_dom_one_negative. Qed.
+Print Assumptions C12_tiled_full_domain_one_negative.
